@@ -48,6 +48,9 @@ CLAIMS = {
  'C18': dict(technique="runtime monitoring: table of std helpers in compiled wrappers executed by vsim over all input values, compared online with one-line integer definitions; CRC checked against bitwise polynomial division",
              text="Exploration: 39 helpers x widths 1..13 / list lengths 1..6 / batch sizes x all input values (<=10 input bits) + constant-operand instances; BitwiseCrc 3 polynomials x 1..4 bits per step.",
              ref="2 C18"),
+ 'C19': dict(technique="runtime monitoring: exact-rational (fractions.Fraction) oracle observing every Python-level fixed-point operation and the vsim-simulated outputs of compiled wrappers over all raw values",
+             text="Exploration: all source/target formats left -2..3 (thorough -3..4), right -3..2 (-4..3), width <=4 (<=6) x 4 style combinations x all raw values for resize; all format pairs x all value pairs for + - *; constructions and equality; sampled configurations in emitted logic.",
+             ref="2 C19"),
  'C17': dict(technique="runtime monitoring: seeded type compositions compiled into round-trip entities executed by vsim over all bit patterns; an independent recursive layout calculator is the oracle for every leaf offset",
              text="Exploration: random compositions (arrays, nested/inherited/templated records, enums, fixed point, Serialized container, BitField) nesting <=3; all bit patterns for widths <=12; to_bits/from_bits identities and per-leaf offsets.",
              ref="2 C17"),
